@@ -21,6 +21,10 @@ def r1_lattice_vectors(idx, r):
     U = unit_steps(idx)
     offs = neighbour_offsets(idx)
     r.require(len(offs) == 6 and len({(repr(a), repr(b)) for a, b in offs}) == 6, "six-distinct-neighbours", idx.method(HEX, "getNeighboringCellIndices"), msg="six distinct neighbour offsets")
+    from ..lattice import neighbour_axial_entries
+    for n_, t in enumerate(neighbour_axial_entries(idx)):
+        r.require(norm(t) == "k", f"neighbour{n_}:same-axial-plane", idx.method(HEX, "getNeighboringCellIndices"), node=t,
+                  msg=f"neighbour {n_} has axial index `{norm(t)}` instead of the cell's own k: for k != 0 it leaves the plane and the neighbour relation is no longer symmetric")
     for cu, M in U.items():
         tag = "cornersUp" if cu else "flatsUp"
         f = idx.method(HEX, "_getRawUnitSteps")
@@ -483,6 +487,34 @@ def r11_bounds_lookup(idx, r):
             raise AnalysisError(f"indicesOfBounds: lookup `{norm(e)[:80]}` not understood")
 
 
+def r12_label_decoding_evaluated(idx, r):
+    """locatorLabelToIndices is EVALUATED (MiniEval) on every label `iii-jjj` and `iii-jjj-kkk` with i, j in {0, 1, 12} and k in {0, 1, 5}:
+    it returns exactly (i, j, k) - k = 0 included, which is an index, not an absent field - and (i, j, None) for a two-field label."""
+    from ..minieval import MiniEval, Raised
+    f = idx.func("armi.reactor.grids.locatorLabelToIndices")
+    prm = f.params()[0]
+    bad, n = [], 0
+    for i in (0, 1, 12):
+        for j in (0, 1, 12):
+            for k in (None, 0, 1, 5):
+                lab = f"{i:03d}-{j:03d}" + ("" if k is None else f"-{k:03d}")
+                n += 1
+                try:
+                    got, _ = MiniEval().run(f.node, {prm: lab})
+                    got = tuple(got) if isinstance(got, (list, tuple)) else got
+                except Raised as e:
+                    got = f"raises {e}"
+                if got != (i, j, k):
+                    bad.append((lab, got))
+    r.require(not bad, "locatorLabelToIndices:decodes-every-field-including-zero", f,
+              msg=f"(label, decoded) = {bad[:3]} of {len(bad)} wrong out of {n}: the label does not decode to the indices it encodes")
+
+
+def r13_pairing(idx, r):
+    from ..pairing import pairing_rule
+    pairing_rule(idx, r, ["armi.reactor.grids"], 40)
+
+
 def run(idx, chk):
     chk.explanation = (
         "C07: hex unit steps extracted as exact matrices over Q(sqrt3)[pitch]; neighbour vectors of length pitch in counter-clockwise 60-degree steps for "
@@ -510,3 +542,7 @@ def run(idx, chk):
                  necessary="'a grid rebuilt from its stored constructor arguments gives the same coordinates ... for every index'")
     chk.run_rule("R07.11", "theta-R-Z indicesOfBounds finds the NEAREST mesh line (tolerant of rounding), in the (theta, r) argument order", lambda r: r11_bounds_lookup(idx, r), floor=4,
                  necessary="indices <-> coordinates are mutually inverse for bounds-defined grids given values that equal the bounds up to rounding")
+    chk.run_rule("R07.12", "a locator label decodes to the indices it encodes, axial index 0 included (evaluated on 36 labels)", lambda r: r12_label_decoding_evaluated(idx, r), floor=1,
+                 necessary="index <-> label conversions are mutually inverse")
+    chk.run_rule("R07.13", "arguments stand at the parameter they are named after; sibling calls forward the same pass-through parameters", lambda r: r13_pairing(idx, r), floor=1,
+                 necessary="coordinates and indices are handed over in (i, j, k) / (x, y, z) order")
